@@ -23,7 +23,9 @@ Reading of the property (what the oracle demands; chosen so that minimally repai
   non-empty written line once, in file order, with its kind and (for exactly representable floats) equal
   fields; lines no parser accepts and empty lines are dropped.  The version is the one stated by the first
   non-empty line when that is a matchFileVersion line (either spelling), 0.1.0 otherwise (get_version's
-  documented fallback).  Ids are distinct within a file (validate_match_ids is not part of this property).
+  documented fallback).  When ids repeat, validate_match_ids' documented contract applies: the deletions whose score
+  id stands in more than one line with a score note are dropped, then the insertions whose performed-note id stands
+  in more than one remaining line with a performed note; every other line is read.
 * FractionalSymbolicDuration: a duration built from / read as integers n, d <= 1024 (the bound of the class, 1024
   itself included) holds exactly n and d; value(a+b) = value(a)+value(b) exactly while the common denominator and
   the summed numerator stay <= 1024 (beyond that the class deliberately approximates: nothing is demanded of the
@@ -48,7 +50,7 @@ DRIVER = "drv_c07"
 PROPS = ["PartituraModel.Props.C07", "PartituraModel.Props.C07Codecs", "PartituraModel.Props.C07Lines",
          "PartituraModel.Props.C07Files", "PartituraModel.Props.C07Bound",
          "PartituraModel.Props.C07Hist", "PartituraModel.Props.C07Dispatch",
-         "PartituraModel.Props.C07ToV1", "PartituraModel.Props.C07Keys"]
+         "PartituraModel.Props.C07ToV1", "PartituraModel.Props.C07Keys", "PartituraModel.Props.C07Validate"]
 TRUSTED = [
     "Python `re` for the pattern sub-language of the match modules (literals, named groups over "
     "[^,] . [0-9,] [a-z,] [^)] with + or *): leftmost match, greedy quantifiers with backtracking - "
@@ -65,7 +67,8 @@ TRUSTED = [
     "off the live class by probing (a candidate table that is not ascending would only show in the comparison)",
     "int(), str.strip/split/upper/lower, numpy lcm/dot/sign/abs on small integers",
     "load_matchfile: open()/splitlines() on ASCII text, np.unique(return_index) = first occurrences in file order "
-    "(modelled by List.eraseDups); validate_match_ids does not remove a line when all ids are distinct",
+    "(modelled by List.eraseDups); np.unique(return_counts) / np.delete in validate_match_ids (modelled by counting in "
+    "lists: `validateIds`)",
     "histories: Python object identity - a line object is modelled as (version, kind, field values); that the "
     "classes keep no other state is exactly what the `hist` stream compares",
 ]
@@ -101,8 +104,9 @@ PARTIAL = [
     "conditions: no field text holds '(' , the score-note fields of a deletion hold no ',' ')' and no field text "
     "contains one of the identifier literals that alone tell the variants of deletion / insertion apart "
     "('-deletion.', 'insertion-', ...) - free-text info values with '(' are only compared; loadFile_written composes "
-    "it to whole files of the six versions with distinct non-empty lines; validate_match_ids (pruning of repeated "
-    "ids) is outside the model - synthesised files use distinct ids",
+    "it to whole files of the six versions with distinct non-empty lines; validate_match_ids is modelled (`validateIds`, "
+    "`loadFileV`) and specified by validate_mem / validate_keeps_others / validate_distinct / validate_deletion_unique / "
+    "loadFileV_distinct; files with repeated ids are generated and compared",
     "to_v1: kind preservation and the content of every conversion are proved (toV1_pedal, _deletion, _snote_note, "
     "_insertion_content, _trill_content, _meta_content, _info_content, _info_signatures); for subtitle and "
     "tempoIndication the VALUE changes by design (list of words -> one text) and its new form is compared only",
@@ -117,7 +121,8 @@ RULE = ("for every line class x supported version, field values drawn from the f
         "length 0-6, all 30 keys in every spelling, ticks, controller values; every line of tests/data/match/*.match; "
         "complete SYNTHESISED files of versions 0.1.0-0.5.0 and 1.0.0 (version line in both spellings or absent, 2-6 "
         "info lines, meta / scoreprop lines, 12-28 body lines of all top-level kinds with distinct ids, empty / "
-        "unparseable / repeated lines) read through load_matchfile; HISTORIES of 3-7 line objects (one kind in 2-4 "
+        "unparseable / repeated lines, in 40 % of the files repeated score-note / performed-note ids) read through "
+        "load_matchfile; HISTORIES of 3-7 line objects (one kind in 2-4 "
         "format versions plus other kinds) created by constructor / from_matchline / parse_matchline / to_v1 in one "
         "order and written in another, every object at least once; distinct = distinct formatted line per "
         "class/version (distinct file text, distinct history); non-trivial = the line was formatted and parsed (the "
@@ -928,6 +933,16 @@ def g_mfile(rng, ver):
         k = rng.choice(kinds + ["snote_note"] * 3)
         i += 1
         body.append({"kind": k, "f": uniq_ids(g_fields(rng, k, ver), k, i)})
+    if rng.random() < 0.4:
+        # repeated ids (validate_match_ids): a deletion / insertion shares its score-note / performed-note id with a
+        # note pair, with another deletion / insertion, with an ornament
+        with_s = [l for l in body if "snote" in l.get("f", {})]
+        with_n = [l for l in body if "note" in l.get("f", {})]
+        for pool, part, fld in ((with_s, "snote", "Anchor"), (with_n, "note", "Id")):
+            for _ in range(rng.randint(1, 3)):
+                if len(pool) >= 2:
+                    a, b = rng.sample(pool, 2)
+                    b["f"] = dict(b["f"], **{part: dict(b["f"][part], **{fld: a["f"][part][fld]})})
     for _ in range(rng.randint(0, 3)):
         body.append({"raw": rng.choice(JUNK)})
     for _ in range(rng.randint(0, 2)):
@@ -1036,7 +1051,8 @@ def cases(rng, tier):
                                                                         [1, 1023, None], [1, 3, None], [1, 1025, None]])}
     for a_, b_ in [([1, 512, None], [1, 1024, None]), ([3, 1024, None], [5, 1024, None]), ([1, 256, None], [1, 512, None]),
                    ([1000, 3, None], [24, 3, None]), ([1000, 3, None], [25, 3, None]), ([1, 1024, None], [1, 1025, None]),
-                   ([1, 513, None], [1, 2, None]), ([1, 512, 2], [1, 4, None]), ([512, 1, None], [512, 1, None])]:
+                   ([1, 513, None], [1, 2, None]), ([1, 512, 2], [1, 4, None]), ([512, 1, None], [512, 1, None]),
+                   ([2000, 0, None], [1, 4, None]), ([0, 2048, None], [1, 4, None]), ([0, 1, None], [0, 4, 3])]:
         yield {"k": "frac", "a": a_, "b": b_}
     bfr = [[1, 1024, None], [3, 1024, None], [5, 1024, 3], [1024, 3, None], [1023, 1024, None], [1, 1025, None],
            {"add": [[1, 512, None], [1, 1024, None]]}, {"add": [[3, 1024, None], [5, 1024, None]]},
@@ -1071,7 +1087,7 @@ def cases(rng, tier):
         for l in keep:
             yield {"k": "file", "file": os.path.basename(fn), "first": lines[0], "line": l}
     # complete synthesised files of every version through load_matchfile
-    nf = {"quick": 3, "thorough": 40, "search": 6}.get(tier, 3)
+    nf = {"quick": 5, "thorough": 40, "search": 8}.get(tier, 5)
     for ver in VERS0 + [V1]:
         for _ in range(nf):
             yield g_mfile(rng, ver)
@@ -1578,11 +1594,41 @@ def eval_mfile(d):
         if tuple(l.version) != ver:
             ev.oracle.append("file version: a line of the version %s file was read as version %s" % (ver, tuple(l.version)))
             break
-    if [kind_of(l) for l in got] != [kind_of(o) for _, o in exp]:
-        ev.oracle.append("file lines: version %s file: written kinds %s, read kinds %s" % (
-            ver, [kind_of(o) for _, o in exp], [kind_of(l) for l in got]))
+    DELK = ("deletion", "trailing_score", "no_played")
+    INSK = ("insertion", "hammer_bounce", "trailing_played")
+
+    def ids_of(o):
+        return (getattr(getattr(o, "snote", None), "Anchor", None), getattr(getattr(o, "note", None), "Id", None))
+
+    sids = [ids_of(o)[0] for _, o in exp if ids_of(o)[0] is not None]
+    pids = [ids_of(o)[1] for _, o in exp if ids_of(o)[1] is not None]
+    distinct = len(set(sids)) == len(sids) and len(set(pids)) == len(pids)
+    # repeated ids: validate_match_ids' documented contract - the deletions whose score id stands in more than one
+    # line with a score note go, then the insertions whose performed-note id stands in more than one remaining line with
+    # a performed note; every other line is read, nothing is invented, the order is the file's
+    if not distinct:
+        from collections import Counter
+        cs_ = Counter(sids)
+        exp = [(t, o) for t, o in exp if not (kind_of(o) in DELK and cs_[ids_of(o)[0]] > 1)]
+        cp_ = Counter(ids_of(o)[1] for _, o in exp if ids_of(o)[1] is not None)
+        exp = [(t, o) for t, o in exp if not (kind_of(o) in INSK and cp_[ids_of(o)[1]] > 1)]
+    pairs, gi, bad = [], 0, None
+    for t, o in exp:
+        if gi < len(got) and kind_of(got[gi]) == kind_of(o) and ids_of(got[gi]) == ids_of(o):
+            pairs.append((t, o, got[gi]))
+            gi += 1
+        else:
+            bad = "the written %s line %r is expected next%s, read next: %s" % (
+                kind_of(o), t, "" if distinct else " (ids repeat in the file: validate_match_ids' contract applied)",
+                "nothing" if gi >= len(got) else "%s %r" % (kind_of(got[gi]), call(lambda: got[gi].matchline)[0]))
+            break
+    if bad is None and gi != len(got):
+        bad = "the read %s line %r was not written there" % (kind_of(got[gi]), call(lambda: got[gi].matchline)[0])
+    if bad is not None:
+        ev.oracle.append("file lines: version %s file: %s (written kinds %s, read kinds %s)" % (
+            ver, bad, [kind_of(o) for _, o in exp], [kind_of(l) for l in got]))
     else:
-        for (t, o), l in zip(exp, got):
+        for t, o, l in pairs:
             exact = all(not isinstance(getattr(p, fn), float) or representable(getattr(p, fn), spec_dec(ver, pre, fn))
                         for pre, p in parts_of(o) for fn in p.field_names)
             if not exact:
